@@ -74,28 +74,30 @@ func c13GuardOrder(c *Check, a *Anchors) {
 	fb.Run()
 	ord := map[string]int{}
 	n := 0
-	inspectBody(body.Body, func(nd ast.Node) bool {
-		var node ast.Node
-		var obj types.Object
-		switch x := nd.(type) {
-		case *ast.DeferStmt:
-			node, obj = x, callee(body.Info(), x.Call)
-		case *ast.CallExpr:
-			node, obj = x, callee(body.Info(), x)
-		default:
-			return true
-		}
-		if !a.IsCmdEvent(obj) {
-			return true
-		}
-		n++
-		st := fb.At[node]
-		ok, miss := need(st, "nil:deps", "nil:preconditions")
-		c.Decide(ok, "guards-before-execution", ordinal(ord, "cmd-event "+calleeName(obj)+"@"+fnDisplay(body)), node.Pos(), "dominated by nil:deps, nil:preconditions",
-			fmt.Sprintf("a command event is reachable without %s (for example under --force): commands of a task whose precondition failed would run; must-facts: %s", miss, st))
-		_, isDefer := nd.(*ast.DeferStmt)
-		return !isDefer
-	})
+	for _, part := range a.bodyParts() {
+		inspectBody(part.Body, func(nd ast.Node) bool {
+			var node ast.Node
+			var obj types.Object
+			switch x := nd.(type) {
+			case *ast.DeferStmt:
+				node, obj = x, callee(body.Info(), x.Call)
+			case *ast.CallExpr:
+				node, obj = x, callee(body.Info(), x)
+			default:
+				return true
+			}
+			if !a.IsCmdEvent(obj) {
+				return true
+			}
+			n++
+			st := fb.At[node]
+			ok, miss := need(st, "nil:deps", "nil:preconditions")
+			c.Decide(ok, "guards-before-execution", ordinal(ord, "cmd-event "+calleeName(obj)+"@"+fnDisplay(body)), node.Pos(), "dominated by nil:deps, nil:preconditions",
+				fmt.Sprintf("a command event is reachable without %s (for example under --force): commands of a task whose precondition failed would run; must-facts: %s", miss, st))
+			_, isDefer := nd.(*ast.DeferStmt)
+			return !isDefer
+		})
+	}
 	// "...and the invocation fails": no successful exit of the body (up to date, nothing to do, all commands done) without the
 	// preconditions having passed
 	for i, r := range fb.Returns {
